@@ -91,6 +91,44 @@ Definition fill (fmt : string) (vals : list oval) (e : env) : fres :=
   | PUnsupported => FUnsupported
   end.
 
+(* The most literal reading of "positional fields take the following values in
+   order", for formats without numbered fields: each "{}" takes the next value off the
+   front of the list.  None = the values ran out; the second component is what is left
+   over.  (Io/OutputProofs.v shows that with exactly as many values as the compiler
+   counts positional fields this agrees with [fill_pieces], never runs out and leaves
+   nothing over.) *)
+Fixpoint fill_in_order (ps : list piece) (vals : list oval) (e : env) : option (fres * list oval) :=
+  match ps with
+  | [] => Some (FOk EmptyString, vals)
+  | Lit t :: r =>
+      match fill_in_order r vals e with
+      | Some (x, rest) => Some (fres_app (FOk t) x, rest)
+      | None => None
+      end
+  | Field name spec :: r =>
+      match classify name with
+      | NAuto =>
+          match vals with
+          | v :: vs =>
+              match fill_in_order r vs e with
+              | Some (x, rest) => Some (fres_app (format_value v spec) x, rest)
+              | None => None
+              end
+          | [] => None
+          end
+      | NNamed n =>
+          match fill_in_order r vals e with
+          | Some (x, rest) => Some (fres_app (format_value (env_get e n) spec) x, rest)
+          | None => None
+          end
+      | _ =>
+          match fill_in_order r vals e with
+          | Some (x, rest) => Some (FUnsupported, rest)
+          | None => None
+          end
+      end
+  end.
+
 (* ---------- lines ---------- *)
 
 Record lines := {
